@@ -11,6 +11,9 @@ import (
 
 type AllOf struct {
 	schemaName []string
+
+	// list the value was written as a list (allOf: ["@a"]), not as a single name.
+	list bool
 }
 
 var (
@@ -49,6 +52,11 @@ func (c *AllOf) Append(scalar bytes.Bytes) {
 	c.schemaName = append(c.schemaName, s.String())
 }
 
+// SetList records that the value of the rule was written as a list.
+func (c *AllOf) SetList() {
+	c.list = true
+}
+
 func (c AllOf) SchemaNames() []string {
 	return c.schemaName
 }
@@ -56,7 +64,8 @@ func (c AllOf) SchemaNames() []string {
 func (c AllOf) ASTNode() schema.RuleASTNode {
 	const source = schema.RuleASTNodeSourceManual
 
-	if len(c.schemaName) == 1 {
+	// a list of one name stays a list: the AST reports the rule as it is written
+	if len(c.schemaName) == 1 && !c.list {
 		return newRuleASTNode(schema.TokenTypeShortcut, c.schemaName[0], source)
 	}
 
